@@ -1,5 +1,6 @@
 import NdonnxVerif.Driver.Dtype
 import NdonnxVerif.Driver.Heap
+import NdonnxVerif.Driver.Scalar
 import NdonnxVerif.Driver.Index
 /-! Line-protocol driver: one request per line on stdin, one answer per line on stdout. -/
 open Ndx.Drv
@@ -9,6 +10,7 @@ def dispatch (line : String) : String :=
   | [] => "bad-op"
   | cmd :: args =>
     match cmd with
+    | "proto" => cmdProto args
     | "heap" => cmdHeap args
     | "rt" => cmdRt args
     | "scalar" => cmdScalar args
